@@ -70,6 +70,16 @@ func (m *middlebox) decide(isBlock bool, data []byte) ([]byte, string) {
 		return data, ""
 	}
 	out := append([]byte(nil), data...)
+	// Length character lowered to just before an embedded "ENQ + valid block", the rest of the
+	// transmission following in a second burst (well within T1). E4 7.8.5: the receiver rejects the
+	// short frame and listens the line silent, so the tail is swallowed and the block retransmitted.
+	if isBlock && m.rng.Intn(2) == 0 {
+		if at := embeddedAt(out); at > 0 {
+			out[0] = byte(at - 3)
+			m.faults["block-length-down+tail"]++
+			return out, fmt.Sprintf("split%d", at)
+		}
+	}
 	if !isBlock {
 		if m.rng.Intn(2) == 0 {
 			m.faults["char-drop"]++
@@ -113,10 +123,19 @@ func (m *middlebox) relay(src, dst net.Conn) {
 		n, err := src.Read(buf)
 		if n > 0 {
 			data := append([]byte(nil), buf[:n]...)
-			out, _ := m.decide(n > 1, data)
-			if len(out) > 0 {
+			out, how := m.decide(n > 1, data)
+			parts := [][]byte{out}
+			if strings.HasPrefix(how, "split") {
+				var at int
+				_, _ = fmt.Sscanf(how, "split%d", &at)
+				parts = [][]byte{out[:at], out[at:]} // two bursts: the second one waits for the reader
+			}
+			for _, part := range parts {
+				if len(part) == 0 {
+					continue
+				}
 				_ = dst.SetWriteDeadline(time.Now().Add(3 * time.Second))
-				if _, werr := dst.Write(out); werr != nil {
+				if _, werr := dst.Write(part); werr != nil {
 					_ = src.Close()
 					_ = dst.Close()
 					return
@@ -138,12 +157,36 @@ type e2eEnd struct {
 	dupBody   bool
 }
 
-func tokenItem(r *rand.Rand, tok, blocks int) (secs2.Item, []byte) {
-	n := []int{20, 300, 600}[blocks-1]
+// e2ePhantomTok is the payload token of a block that is never sent: it only exists as bytes inside
+// the first block of every test message, right after an ENQ.
+const e2ePhantomTok = 7777
+
+// phantomWire is a complete, checksum-valid single-block message (device 7, S1F1) addressed like the
+// carrier (toEquip), whose body is a test payload with the phantom token.
+func phantomWire(toEquip bool) []byte {
+	var h [10]byte
+	h[1] = 7
+	if !toEquip {
+		h[0] = 0x80
+	}
+	h[2], h[3] = 1, 1
+	h[4], h[5] = 0x80, 1
+	h[6], h[7], h[8], h[9] = 0x50, 0x48, 0x41, 0x4E
+	return wireOf(h, []byte{0x21, 0x04, 0xC1, 0x8E, byte(e2ePhantomTok >> 8), byte(e2ePhantomTok & 0xFF)})
+}
+
+// tokenItem: a binary item [C1 8E token][FF FF][ENQ][phantom block][random...]: a length character
+// lowered to just before the ENQ gives a frame with a legal length and a failing checksum (FF FF),
+// after which "ENQ, <valid block>" follows on the line.
+func tokenItem(r *rand.Rand, tok, blocks int, toEquip bool) (secs2.Item, []byte) {
+	n := []int{60, 300, 600}[blocks-1]
 	vals := make([]any, n)
 	raw := make([]byte, n)
 	raw[0], raw[1], raw[2], raw[3] = 0xC1, 0x8E, byte(tok>>8), byte(tok)
-	for i := 4; i < n; i++ {
+	raw[4], raw[5], raw[6] = 0xFF, 0xFF, chENQ
+	pw := phantomWire(toEquip)
+	copy(raw[7:], pw)
+	for i := 7 + len(pw); i < n; i++ {
 		raw[i] = byte(r.Intn(256))
 	}
 	for i, v := range raw {
@@ -305,16 +348,16 @@ func e2eSession(c *vh.Ctx, idx int) {
 		item        secs2.Item
 		body        []byte
 	}
-	mkPlan := func(base int) []plan {
+	mkPlan := func(base int, toEquip bool) []plan {
 		var ps []plan
 		for i := 0; i < k; i++ {
 			p := plan{tok: base + i, blocks: 1 + r.Intn(3), pause: time.Duration(r.Intn(15)) * time.Millisecond}
-			p.item, p.body = tokenItem(r, p.tok, p.blocks)
+			p.item, p.body = tokenItem(r, p.tok, p.blocks, toEquip)
 			ps = append(ps, p)
 		}
 		return ps
 	}
-	planE, planH := mkPlan(1000), mkPlan(2000) // tokens are per session: fresh endpoints, fresh logs
+	planE, planH := mkPlan(1000, false), mkPlan(2000, true) // tokens are per session: fresh endpoints, fresh logs
 	start := make(chan struct{})
 	var wg sync.WaitGroup
 	run := func(e *e2eEnd, ps []plan, out *[]sendRec) {
@@ -344,7 +387,7 @@ func e2eSession(c *vh.Ctx, idx int) {
 	mb.on = false
 	mb.mu.Unlock()
 	sentinel := func(from, to *e2eEnd, tok int) bool {
-		item, _ := tokenItem(r, tok, 1)
+		item, _ := tokenItem(r, tok, 1, to == equip)
 		for try := 0; try < 40; try++ {
 			if !waitSelected(from.conn, 3*time.Second) || !waitSelected(to.conn, 3*time.Second) {
 				continue
@@ -367,7 +410,7 @@ func e2eSession(c *vh.Ctx, idx int) {
 				time.Sleep(5 * time.Millisecond)
 			}
 			tok++ // never reuse a token whose fate is unknown
-			item, _ = tokenItem(r, tok, 1)
+			item, _ = tokenItem(r, tok, 1, to == equip)
 		}
 		return false
 	}
